@@ -728,24 +728,27 @@ def run(chk, replay=None):
                 okk = False
                 sawnan = not finite(off)
                 agematch = False
-                for ia in cands:
-                    for ib in range(len(G)):
-                        for ic in range(len(G)):
-                            if age_off != max(L[ps[0]], L[ia], L[ib], L[ic]):
-                                continue
-                            agematch = True
-                            if not finite(tg + G[ia] + G[ib] + G[ic] + off):
-                                sawnan = True
-                                continue
-                            if not plausible(wlo, whi, tg, G[ia], G[ib], G[ic], off):
-                                continue
-                            b2, Fs = de_form(p, wlo, whi, tg, G[ia], G[ib], G[ic], off)
-                            if not b2:
-                                okk = True
+                for prune in (True, False):        # the pruning is only a shortcut: a failure is confirmed without it
+                    for ia in cands:
+                        for ib in range(len(G)):
+                            for ic in range(len(G)):
+                                if age_off != max(L[ps[0]], L[ia], L[ib], L[ic]):
+                                    continue
+                                agematch = True
+                                if not finite(tg + G[ia] + G[ib] + G[ic] + off):
+                                    sawnan = True
+                                    continue
+                                if prune and not plausible(wlo, whi, tg, G[ia], G[ib], G[ic], off):
+                                    continue
+                                b2, Fs = de_form(p, wlo, whi, tg, G[ia], G[ib], G[ic], off)
+                                if not b2:
+                                    okk = True
+                                    break
+                            if okk:
                                 break
                         if okk:
                             break
-                    if okk:
+                    if okk or sawnan:
                         break
                 if sawnan and not okk:
                     nanskips += 1
